@@ -21,7 +21,7 @@ MANIFEST = {
     'technique': 'runtime monitoring: cross-route differential over every entry point x BOM x options',
 }
 LEVEL = 'exploration'
-BUDGET = {'quick': 30, 'thorough': 300}
+BUDGET = {'quick': 60, 'thorough': 300}
 RULE = ('(document, route, BOM?, option set); a case = one document pushed through all routes and configurations; distinct by '
         'text hash; non-trivial = the document has at least two elements')
 ASSUMPTIONS = ['CPython file I/O trusted']
